@@ -257,7 +257,11 @@ def check_make_active(ctx):
     loops = [l for l in ast.walk(init) if isinstance(l, ast.For)]
     ok3 = len(dp) == 1 and len(loops) == 1 and norm_src(loops[0].iter) in ("self.partition.get_layer_node_list(depth=1)", "self.partition.get_layer_node_list(1)",
                                                                            "self.partition.get_node_list()[1]") \
-        and [norm_src(s) for s in loops[0].body] == ["self.make_active(%s)" % norm_src(loops[0].target)] and dp[0].lineno < loops[0].lineno
+        and [norm_src(s) for s in loops[0].body] == ["self.make_active(%s)" % norm_src(loops[0].target)]
+    if ok3:
+        # deepen() comes first: decided on the control-flow graph (line numbers of inlined code are those of the call site)
+        g3 = C.CFG(init)
+        ok3 = g3.dominates(g3.node_of(dp[0]), g3.node_of(loops[0]))
     ctx.ob("R11-COVER", ok3, c.file, "Zooming.__init__", "initially every cell of layer 1 (a tiling of the domain) has an arm",
            "deepen() once, then make_active for each cell of layer 1" if ok3 else "initial activation not recognised", init.lineno)
     # the three maps are only written by make_active / the hand-over / receive_reward's statistics
